@@ -142,6 +142,55 @@ def run(run):
             run.count('concurrent_table_query_yields', mon.yields)
     finally:
         sys.setswitchinterval(old_si)
+    # the same question decided systematically for get_id(): for every
+    # registered class of the play tables and a pair of versions at which its
+    # id differs, thread A's call is stopped at each of its statements in
+    # turn while thread B asks for the other version
+    from ..probes.linemon import PreemptEverywhere
+    from .. import core
+    pe_files = set()
+    pe_cases = []
+    for direction, state, get_packets in tables:
+        if state != 'play':
+            continue
+        by_class = {}
+        for pv in supported:
+            ctx = C.ConnectionContext(protocol_version=pv)
+            for k in get_packets(ctx):
+                by_class.setdefault(k, {})[pv] = k.get_id(ctx)
+        for k, ids in sorted(by_class.items(),
+                             key=lambda kv: kv[0].__qualname__):
+            pvs = sorted(ids, key=supported.index)
+            other = next((p for p in pvs[::-1] if ids[p] != ids[pvs[0]]),
+                         None)
+            if other is not None:
+                pe_cases.append((k, pvs[0], other, ids))
+                fn = sys.modules[k.__module__].__file__
+                pe_files.add(fn[len(core.REPO) + 1:])
+    pe_files |= {'minecraft/networking/connection.py', 'minecraft/utility.py',
+                 'minecraft/networking/packets/packet.py'}
+    pe = PreemptEverywhere(sorted(pe_files), max_k=60)
+    for k, pva, pvb, ids in pe_cases:
+        ca = C.ConnectionContext(protocol_version=pva)
+        cb_ = C.ConnectionContext(protocol_version=pvb)
+
+        def judge(kk, ra, rb, k=k, pva=pva, pvb=pvb, ids=ids):
+            after = k.get_id(C.ConnectionContext(protocol_version=pvb))
+            if ra != ('ok', ids[pva]) or rb != ('ok', ids[pvb]) or \
+                    after != ids[pvb]:
+                return {'class': k.__qualname__, 'stopped_after_statements':
+                        kk, 'thread_a': (pva, repr(ra)),
+                        'thread_b': (pvb, repr(rb)), 'asked_again': after,
+                        'sequential': (ids[pva], ids[pvb])}
+        wit = pe.run(lambda: k.get_id(ca), lambda: k.get_id(cb_), judge)
+        run.count('get_id_classes_preempted_everywhere')
+        if wit:
+            run.violation('table/concurrent-queries/get_id', 'get_id() of a '
+                          'class, asked by two threads for two versions with '
+                          'one switch between two statements, gave a wrong '
+                          'answer (or left one behind)', wit)
+            break
+    run.count('get_id_preemption_points', pe.points)
     if qproblems:
         run.violation('table/concurrent-queries', 'a thread querying the '
                       'tables for its version got another answer than a '
@@ -437,3 +486,4 @@ def run(run):
     run.require('tables_read_after_user_subclasses', 500)
     run.require('concurrent_reactor_builds', 100)
     run.require('concurrent_table_queries', 100)
+    run.require('get_id_preemption_points', 100)
